@@ -51,4 +51,6 @@ static inline double __verif_max_double(double a, double b) { return a < b ? b :
 #define __verif_LONG_MIN (-9223372036854775807L - 1)
 #define __verif_ULONG_MAX 18446744073709551615UL
 #define __verif_UINT_MAX 4294967295U
+/* getenv: the checks assume the environment variable is NOT set (stated in the evidence of the unit that uses it) */
+static inline char *__verif_getenv(const char *name) { (void)name; return (char *)0; }
 #endif
